@@ -104,13 +104,13 @@ def len_ok(lenform, n):
 
 
 @st.composite
-def len_around(draw, n, big=False):
+def len_around(draw, n, big=False, huge=True):
     """A LEN form admitting length n (n may be None: any non-negative form)."""
     kind = draw(st.sampled_from(["eq", "min", "max", "range"]))
     if n is None:
         hi = 45 if big else 6
         a = draw(st.integers(0, hi))
-        if big and draw(st.integers(0, 7)) == 0:
+        if big and huge and draw(st.integers(0, 7)) == 0:
             a = draw(st.sampled_from([256, 257, 300]))      # beyond CPython's cache of small int objects
         if kind == "eq":
             return ["eq", a]
@@ -330,14 +330,14 @@ def list_spec(draw, depth, sat, opts):
         if long_eq:
             s["len"] = ["eq", draw(st.sampled_from([257, 300]))]
         elif draw(st.booleans()):
-            s["len"] = draw(len_around(None, big=True)) if sat else draw(len_free())
+            s["len"] = draw(len_around(None, big=True, huge=depth <= 1)) if sat else draw(len_free())
         return s
     if form == "typed":
         s["elem"] = draw(sub)
         if long_eq:
             s["len"] = ["eq", draw(st.sampled_from([257, 300]))]
         elif draw(st.booleans()):
-            s["len"] = draw(len_around(None, big=draw(st.integers(0, 5)) == 0)) if sat \
+            s["len"] = draw(len_around(None, big=draw(st.integers(0, 5)) == 0, huge=depth <= 1)) if sat \
                 else draw(len_free())
         return s
     if form == "ellipsis":
